@@ -65,7 +65,7 @@ def _merge_jobs(res, tot, fns, stubs, backend):
     return hist, obl, steps, t
 
 
-def run(out, replay_path=None):
+def run(out, replay_path=None, with_sinks=True):
     pid = out.pid
     thorough = out.tier == 'thorough'
     if replay_path:
@@ -256,6 +256,22 @@ def run(out, replay_path=None):
     if inductive_broken or scen:
         out.notes.append('the representation invariant is not inductive on this tree (or another writer property is violated); '
                          'the claim for %s is downgraded to the bounded histories explored' % pid)
+    if with_sinks and pid in ('C05', 'C06', 'C07'):
+        # the buffered *sinks* around the writer belong to these properties too: default capacity 512 and newline
+        # terminator (C05), remainder sent on flush / drop and after a failed flush (C06), the write adapters hand the
+        # socket's verdict through (C07)
+        from . import check_sinks
+        from .checks import Outcome
+        sub = Outcome(pid, 'quick', out.seed)     # the sink part is small; its deeper tier belongs to C13 / C14
+        check_sinks.run(sub)
+        sc = sub.evidence.get('coverage', {})
+        out.evidence['coverage']['sink_part'] = {k: sc.get(k) for k in ('obligations', 'queries', 'vacuity')}
+        for k in ('obligations', 'discharged', 'states', 'transitions', 'evaluations', 'distinct_nontrivial', 'traces_validated_against_impl'):
+            out.evidence['coverage'][k] = out.evidence['coverage'].get(k, 0) + int(sc.get(k, 0) or 0)
+        out.violations += sub.violations
+        out.inconclusive += sub.inconclusive
+        if out.violations or out.inconclusive:
+            return
     # oracle self-test: the native oracle must be silent where the solver side passes
     exe = replay.build('dev')
     import subprocess
